@@ -49,6 +49,40 @@ func parse(src string, m Mode) ParseOut {
 	return ParseOut{Prog: prog, Err: err, Errors: p.Errors(), P: p}
 }
 
+// recycledBuilders: long-lived default-mode parser builders with a history (per worker process, single goroutine): each
+// was first configured with smart semicolons and tolerant mode, built and ran a parser, and was then switched back to
+// the default modes in one of three ways. From then on it builds one parser per text. A builder is a value users keep
+// and reconfigure; a parser built from it now is a default-mode parser like any other.
+var recycledBuilders [3]*parser.Builder
+
+func recycledBuilder(v int) *parser.Builder {
+	v %= len(recycledBuilders)
+	if recycledBuilders[v] == nil {
+		b := parser.NewBuilder(lexer.NewBuilder()).WithSmartSemicolon(true).WithTolerantMode(true)
+		b.Build("a\n(b)\n{").ParseProgram()
+		switch v {
+		case 0:
+			b.WithSmartSemicolon(false)
+			b.WithTolerantMode(false)
+		case 1:
+			b.WithTolerantMode(false)
+			b.Build("x").ParseProgram()
+			b.WithSmartSemicolon(false)
+		default:
+			b.WithTolerantMode(false).WithSmartSemicolon(false)
+		}
+		recycledBuilders[v] = b
+	}
+	return recycledBuilders[v]
+}
+
+// parseRecycled parses src in default mode with a parser built from a long-lived, reconfigured builder.
+func parseRecycled(src string, v int) ParseOut {
+	p := recycledBuilder(v).Build(src)
+	prog, err := p.ParseProgram()
+	return ParseOut{Prog: prog, Err: err, Errors: p.Errors(), P: p}
+}
+
 // Cfg is a compiler configuration.
 type Cfg struct {
 	Pretty bool
